@@ -26,7 +26,7 @@ def prepare():
 def budgets(tier):
     if tier == 'quick':
         return dict(shards=16, examples=150)
-    return dict(shards=16, examples=1500, deadline_s=3000)
+    return dict(shards=16, examples=4500, deadline_s=3000)
 
 
 def strategy(tier):
